@@ -730,6 +730,9 @@ func (e *Engine) havocRegion(st *State, fr *Frame, ctx *specCtx, m Expr, in ssa.
 	r := ctx.evalRegion(m)
 	switch r.kind {
 	case "slice":
+		if r.obj.IsConst() && r.obj.N.Sign() == 0 {
+			return // nil slice: no storage
+		}
 		if in != nil {
 			e.frameCheckRegion(st, fr, r.elem, r.obj, r.lo, r.hi, in)
 		}
